@@ -416,7 +416,7 @@ def r3_grid(ctx: Context) -> None:
                 ctx.fail("R3.size", "SearchSpace.__init__:space-size:fixed-width-product", f"`{src(s_)[:80]}`: numpy multiplies the column lengths in 64-bit integers, which wrap silently: for large spaces "
                          "(e.g. 4 parameters of 100001 points) the reported size is not the product of the grid lengths", init, s_)
     init_one = any(isinstance(s_, (ast.Assign, ast.AnnAssign)) and isinstance(v, ast.Constant) and v.value == 1 for s_, v in size_stores)
-    upd = [(s_, v) for s_, v in size_stores if isinstance(s_, ast.AugAssign) or (isinstance(s_, ast.Assign) and not isinstance(v, ast.Constant))]
+    upd = [(s_, v) for s_, v in size_stores if isinstance(s_, ast.AugAssign) or (isinstance(s_, (ast.Assign, ast.AnnAssign)) and not isinstance(v, ast.Constant))]
     ok_size = False
     if len(upd) == 1:
         s_, v = upd[0]
@@ -426,10 +426,10 @@ def r3_grid(ctx: Context) -> None:
                 ok_size = init_one and src(v) in (f"len({col})", f"{col}.shape[0]", f"{col}.size")
             elif isinstance(lp.target, ast.Name) and src(lp.iter) in ("self._param_grid", "self.param_grid"):
                 ok_size = init_one and src(v) in (f"len({lp.target.id})", f"{lp.target.id}.shape[0]", f"{lp.target.id}.size")
-        elif isinstance(s_, ast.Assign) and isinstance(v, ast.Call) and (dotted(v.func) or "") in ("math.prod", "prod") and v.args and isinstance(v.args[0], (ast.GeneratorExp, ast.ListComp)):
+        elif isinstance(s_, (ast.Assign, ast.AnnAssign)) and isinstance(v, ast.Call) and (dotted(v.func) or "") in ("math.prod", "prod") and v.args and isinstance(v.args[0], (ast.GeneratorExp, ast.ListComp)):
             g0 = v.args[0]
             ok_size = len(g0.generators) == 1 and src(g0.generators[0].iter) in ("self._param_grid", "self.param_grid") and src(g0.elt) == f"len({src(g0.generators[0].target)})"
-        elif isinstance(s_, ast.Assign) and isinstance(v, ast.Call) and (dotted(v.func) or "") in ("reduce", "functools.reduce") and len(v.args) == 3 \
+        elif isinstance(s_, (ast.Assign, ast.AnnAssign)) and isinstance(v, ast.Call) and (dotted(v.func) or "") in ("reduce", "functools.reduce") and len(v.args) == 3 \
                 and src(v.args[0]) in ("operator.mul", "mul", "int.__mul__") and isinstance(v.args[2], ast.Constant) and v.args[2].value == 1:
             # reduce(operator.mul, (len(c) for c in grid), 1): the same exact product of Python integers
             seq = v.args[1]
